@@ -260,7 +260,11 @@ def render(spec):
             f"@dependent_check\n"
             f"def {d['name']}(v: {d['bound']}):\n"
             f"    HOOK({d['name']!r})\n"
-            f"    return getattr(v, 'tag', 0) % {d['mod']} == {d['eq']}\n"
+            f"    x = getattr(v, 'tag', None)\n"
+            f"    if x is None:\n"
+            f"        # plain numbers: equal values of different types (1, True, 1.0) must differ\n"
+            f"        x = (int(v) if isinstance(v, (int, float)) else 0) + len(type(v).__name__)\n"
+            f"    return x % {d['mod']} == {d['eq']}\n"
         )
     self_flag = bool(spec.get("meta", {}).get("self"))
     # canonical order (not dict insertion order): a spec that went through a JSON file with sorted
